@@ -1,2 +1,157 @@
--- line-protocol model driver for C05 (stub)
-def main : IO Unit := IO.println "stub C05"
+/- Line-protocol model driver for C05 (fiber / signal protocol).
+    tree <flags|-> <fuel> <term tokens…>   -> "<event>;<event>;… | <halt> | <steps>"
+   Term syntax: see harness/C05/gen.py (prefix notation); macros (M…) are expanded with Fiber/Boot.lean. -/
+import Driver.Util
+import JanetModel.Fiber.Boot
+open Driver JanetModel.Fiber
+
+def parseAtom (t : String) : Atom :=
+  if t == "n" then .lit .nil
+  else if t == "T" then .lit (.bool true)
+  else if t == "F" then .lit (.bool false)
+  else
+    let r := (t.drop 1).toString
+    match t.front with
+    | 'i' => .lit (.int (r.toInt?.getD 0))
+    | 'k' => .lit (.kw r)
+    | 'v' => .var (r.toNat?.getD 0)
+    | 'g' => .glob (r.toNat?.getD 0)
+    | _ => .lit .nil
+
+def num (t : String) : Nat := t.toNat?.getD 0
+def flagsOf (t : String) : List Nat := if t == "-" then [] else t.toList.map Char.toNat
+
+def parsePrim : List String → Option (Prim × List String)
+  | "pure" :: a :: r => some (.pure (parseAtom a), r)
+  | "pair" :: a :: b :: r => some (.pair (parseAtom a) (parseAtom b), r)
+  | "fst" :: a :: r => some (.fst (parseAtom a), r)
+  | "snd" :: a :: r => some (.snd (parseAtom a), r)
+  | "status" :: a :: r => some (.status (parseAtom a), r)
+  | "yield" :: a :: r => some (.yield (parseAtom a), r)
+  | "signal" :: n :: a :: r => some (.signal (num n) (parseAtom a), r)
+  | "error" :: a :: r => some (.error (parseAtom a), r)
+  | "resume" :: f :: a :: r => some (.resume (parseAtom f) (parseAtom a), r)
+  | "cancel" :: f :: a :: r => some (.cancel (parseAtom f) (parseAtom a), r)
+  | "propagate" :: a :: f :: r => some (.propagate (parseAtom a) (parseAtom f), r)
+  | "next" :: f :: r => some (.next (parseAtom f), r)
+  | "last" :: f :: r => some (.last (parseAtom f), r)
+  | "setdyn" :: k :: a :: r => some (.setdyn (num k) (parseAtom a), r)
+  | "dyn" :: k :: r => some (.dyn (num k), r)
+  | _ => none
+
+partial def parseTm : List String → Option (Tm × List String)
+  | "R" :: a :: r => some (.ret (parseAtom a), r)
+  | "I" :: a :: b :: r => do
+    let (t, r) ← parseTm r
+    let (e, r) ← parseTm r
+    pure (.ite (parseAtom a) (parseAtom b) t e, r)
+  | "P" :: l :: r => do
+    let (p, r) ← parsePrim r
+    let (k, r) ← parseTm r
+    pure (.prim (num l) p k, r)
+  | "N" :: l :: fl :: r => do
+    let (b, r) ← parseTm r
+    let (k, r) ← parseTm r
+    pure (.new (num l) b (flagsOf fl) k, r)
+  | "B" :: l :: r => do
+    let (t, r) ← parseTm r
+    let (k, r) ← parseTm r
+    pure (.block (num l) t k, r)
+  | "C" :: l :: r => do
+    let (t, r) ← parseTm r
+    let (k, r) ← parseTm r
+    pure (.ccall (num l) t k, r)
+  | "E" :: l :: f :: r => do
+    let (b, r) ← parseTm r
+    let (k, r) ← parseTm r
+    pure (.each (num l) (parseAtom f) b k, r)
+  | "S" :: r => do
+    let (t, r) ← parseTm r
+    let (k, r) ← parseTm r
+    pure (.seq t k, r)
+  | "Mdefer" :: n :: l :: r => do
+    let (f, r) ← parseTm r
+    let (b, r) ← parseTm r
+    let (k, r) ← parseTm r
+    pure (deferTm (num n) (num l) f b k, r)
+  | "Medefer" :: n :: l :: r => do
+    let (f, r) ← parseTm r
+    let (b, r) ← parseTm r
+    let (k, r) ← parseTm r
+    pure (edeferTm (num n) (num l) f b k, r)
+  | "Mtry" :: n :: l :: r => do
+    let (b, r) ← parseTm r
+    let (c, r) ← parseTm r
+    let (k, r) ← parseTm r
+    pure (tryTm (num n) (num l) b c k, r)
+  | "Mprotect" :: n :: l :: r => do
+    let (b, r) ← parseTm r
+    let (k, r) ← parseTm r
+    pure (protectTm (num n) (num l) b k, r)
+  | "Mwith" :: n :: l :: r => do
+    let (p, r) ← parsePrim r
+    let (d, r) ← parseTm r
+    let (b, r) ← parseTm r
+    let (k, r) ← parseTm r
+    pure (withTm (num n) (num l) p d b k, r)
+  | "Mprompt" :: n :: l :: tag :: r => do
+    let (b, r) ← parseTm r
+    let (k, r) ← parseTm r
+    pure (promptTm (num n) (num l) tag b k, r)
+  | "Mreturn" :: n :: l :: tag :: a :: r => do
+    let (k, r) ← parseTm r
+    pure (returnTm (num n) (num l) tag (parseAtom a) k, r)
+  | "Mgen" :: n :: l :: c :: r => do
+    let (b, r) ← parseTm r
+    let (k, r) ← parseTm r
+    pure (generateTm (num n) (num l) (num c) b k, r)
+  | "Mcoro" :: l :: r => do
+    let (b, r) ← parseTm r
+    let (k, r) ← parseTm r
+    pure (coroTm (num l) b k, r)
+  | "Mdyns" :: n :: l :: key :: a :: r => do
+    let (b, r) ← parseTm r
+    let (k, r) ← parseTm r
+    pure (withDynsTm (num n) (num l) (num key) (parseAtom a) b k, r)
+  | _ => none
+
+def hexd (n : Nat) : Char := hexDigit (n % 16)
+
+partial def showVal : Val → String
+  | .nil => "nil"
+  | .bool b => if b then "true" else "false"
+  | .int n => toString n
+  | .str s => "\"" ++ s.replace " " "_" ++ "\""
+  | .kw s => ":" ++ s
+  | .fib f => "F" ++ toString f
+  | .pair a b => "(" ++ showVal a ++ "," ++ showVal b ++ ")"
+
+def showSnap (xs : List Nat) : String := String.ofList (xs.map hexd)
+
+def showEvent (e : Event) : String := s!"{e.l}:{e.fid}:{showVal e.v}:{showSnap e.snap}"
+
+def showHalt (s : State) : String :=
+  match s.halt with
+  | none => "running"
+  | some (.done sig v) => s!"done {sig} {showVal v} {showSnap s.snapshot}"
+  | some .hang => "hang"
+  | some (.unmodelled w) => "unmodelled " ++ w.replace " " "_"
+  | some (.bad w) => "bad " ++ w.replace " " "_"
+
+def countSteps : Nat → Nat → State → Nat × State
+  | 0, n, s => (n, s)
+  | f + 1, n, s => match s.halt with
+    | some _ => (n, s)
+    | none => countSteps f (n + 1) (step s)
+
+def stepLine (_ : Unit) (toks : List String) : Unit × String :=
+  match toks with
+  | "tree" :: fl :: fuel :: r =>
+    match parseTm r with
+    | some (t, []) =>
+      let (n, s) := countSteps (num fuel) 0 (init t (flagsOf fl))
+      ((), String.intercalate ";" (s.trace.reverse.map showEvent) ++ " | " ++ showHalt s ++ " | " ++ toString n)
+    | _ => ((), "bad-op parse")
+  | _ => ((), "bad-op")
+
+def main : IO Unit := runLoop () stepLine
